@@ -273,3 +273,41 @@ Proof. intros m k v k2 H. split; [now apply hsorted_set|apply hsorted_filter_le1
 Lemma header_last_value_wins_lemma : forall m k v, hsorted m ->
   hmap_get (hmap_set m k v) k = v /\ forall k2, ci_compare k2 k <> Eq -> hmap_get (hmap_set m k v) k2 = hmap_get m k2.
 Proof. intros m k v H. split; [now apply hmap_get_set_same|intros k2 H2; now apply hmap_get_set_other]. Qed.
+
+(* ---------------------------------------------------------------- the comparator is a strict weak order whose equivalence is
+   exactly case-insensitive equality: distinct names (ignoring case) are distinct keys -- in particular a name and a longer name
+   it is a prefix of (the length tie-break of protocol::compare) *)
+Lemma ci_prefix_lt : forall a s, s <> [] -> ci_compare a (a ++ s) = Lt.
+Proof.
+  induction a as [|x a IH]; intros s Hs; cbn [app ci_compare].
+  - destruct s; [contradiction|reflexivity].
+  - rewrite N.ltb_irrefl. now apply IH.
+Qed.
+Lemma ci_total a b : lname a <> lname b -> ci_compare a b = Lt \/ ci_compare b a = Lt.
+Proof.
+  intros H. destruct (ci_compare a b) eqn:E; [now left| |].
+  - exfalso. apply H. now apply ci_eq_iff.
+  - right. now apply ci_lt_gt.
+Qed.
+Lemma icompare_less_lt a b : icompare_less a b = true <-> ci_compare a b = Lt.
+Proof. unfold icompare_less, compare_int. destruct (ci_compare a b); cbn; split; intros H; try reflexivity; try discriminate. Qed.
+
+Lemma comparator_strict_weak_order :
+  (forall a, icompare_less a a = false) /\
+  (forall a b c, icompare_less a b = true -> icompare_less b c = true -> icompare_less a c = true) /\
+  (forall a b, icompare_less a b = false /\ icompare_less b a = false <-> lname a = lname b) /\
+  (forall a b, lname a <> lname b -> icompare_less a b = true \/ icompare_less b a = true) /\
+  (forall a s, s <> [] -> icompare_less a (a ++ s) = true /\ icompare_less (a ++ s) a = false).
+Proof.
+  split; [|split; [|split; [|split]]].
+  - intros a. unfold icompare_less, compare_int. now rewrite ci_refl.
+  - intros a b c H1 H2. apply icompare_less_lt in H1, H2. apply icompare_less_lt. eapply ci_lt_trans; eassumption.
+  - intros a b. split.
+    + intros [H1 H2]. apply ci_eq_iff. destruct (ci_compare a b) eqn:E; [|reflexivity|].
+      * apply icompare_less_lt in E. congruence.
+      * apply ci_lt_gt in E. apply icompare_less_lt in E. congruence.
+    + intros H. apply ci_eq_iff in H. pose proof (ci_eq_sym _ _ H) as H'. unfold icompare_less, compare_int. now rewrite H, H'.
+  - intros a b H. destruct (ci_total a b H) as [E|E]; [left|right]; now apply icompare_less_lt.
+  - intros a s Hs. pose proof (ci_prefix_lt a s Hs) as E. split; [now apply icompare_less_lt|].
+    unfold icompare_less, compare_int. apply ci_lt_gt in E. now rewrite E.
+Qed.
